@@ -9,9 +9,14 @@
 (*        vals[m] = the value it carries for metric m                         *)
 (*   [ev |-> "req", c, ns, m, st]      a ComponentMetricRequest was sent      *)
 (*        (st: 0 = start_time None, 1 = the harness' fixed datetime)          *)
+(*   [ev |-> "fail"]                   the fake API was told to let the next  *)
+(*        components() call raise (extension: transient API failure)          *)
 (*   [ev |-> "iter", obs, gen, nent, ugen, unent, idle]  one loop iteration;  *)
 (*        obs in order:                                                       *)
 (*        [k |-> "take", c, ns, m, st] the actor took that request            *)
+(*        [k |-> "listfail"]           components() raised: add_metric raises,*)
+(*             the actor's _run ends and is restarted after RESTART_DELAY     *)
+(*             (the harness moves the virtual clock when the loop is idle)    *)
 (*        [k |-> "newrecv", c]         the source asked the API for a receiver*)
 (*        [k |-> "cons", c, id, ts]    a handler took message id from it      *)
 (*        [k |-> "dlv", c, ns, m, st, ts, val]  a sample arrived on the registry*)
@@ -46,6 +51,7 @@ B(b) == IF b THEN 1 ELSE 0
 LineEvents(x) ==
     IF x.ev = "msg" THEN <<Ev("msg", x.c, 0, 0, 0, x.id, x.ts, 0, x.vals)>>
     ELSE IF x.ev = "req" THEN <<Ev("req", x.c, x.ns, x.m, x.st, 0, 0, 0, <<>>)>>
+    ELSE IF x.ev = "fail" THEN <<Ev("fail", 0, 0, 0, 0, 0, 0, 0, <<>>)>>
     ELSE IF x.ev = "iter" THEN
         [j \in 1..Len(x.obs) |-> Ev(x.obs[j].k, x.obs[j].c, x.obs[j].ns, x.obs[j].m, x.obs[j].st, x.obs[j].id, x.obs[j].ts, x.obs[j].val, <<>>)]
         \o <<Ev("end", 0, 0, 0, 0, B(x.idle), 0, 0, <<x.gen, x.nent, <<x.ugen, x.unent>>>>)>>
@@ -69,10 +75,13 @@ ObsChecks ==
         MsgSeq(c, i) == LET S == SelectSeq(SubSeq(F, i, N), LAMBDA e : e.k = "msg" /\ e.c = c)
                         IN [j \in 1..Len(S) |-> S[j].id]
         FirstIdx(P(_)) == LET S == {i \in 1..N : P(F[i])} IN IF S = {} THEN 0 ELSE CHOOSE i \in S : \A j \in S : i <= j
-        TakeIdx(k) == FirstIdx(LAMBDA e : e.k = "take" /\ KeyE(e) = k)
-        InstPos(k) == Len(ConsSeq(k.c, TakeIdx(k))) + 1
         Takes == {i \in 1..N : F[i].k = "take"}
-        IsDup(i) == TakeIdx(KeyE(F[i])) < i
+        \* the request in hand when components() raised was dropped by the crash: not a subscription
+        Lost(i) == \E j \in 1..N : F[j].k = "listfail" /\ i < j /\ \A x \in Takes : x < j => x <= i
+        TakeIdx(k) == LET S == {i \in Takes : KeyE(F[i]) = k /\ ~Lost(i)}
+                      IN IF S = {} THEN 0 ELSE CHOOSE i \in S : \A j \in S : i <= j
+        InstPos(k) == Len(ConsSeq(k.c, TakeIdx(k))) + 1
+        IsDup(i) == ~Lost(i) /\ TakeIdx(KeyE(F[i])) < i
         Ends == {i \in 1..N : F[i].k = "end"}
         PrevEnd(j) == LET S == {i \in Ends : i < j} IN IF S = {} THEN 0 ELSE CHOOSE i \in S : \A x \in S : x <= i
         GenAt(j, c) == IF j = 0 THEN 0 ELSE F[j].aux[1][CompIdx(c)]
@@ -80,7 +89,7 @@ ObsChecks ==
         LastEnd == PrevEnd(N + 1)
         \* number of iterations after which comp_data_tasks[c] was another task object
         GenChanges(c) == Cardinality({j \in Ends : GenAt(j, c) # GenAt(PrevEnd(j), c)})
-        NewTakes(c) == {i \in Takes : F[i].c = c /\ ~IsDup(i)}
+        NewTakes(c) == {i \in Takes : F[i].c = c /\ ~IsDup(i) /\ ~Lost(i)}
         \* one entry per distinct request, at most one task per distinct request
         Frugal(c) == /\ (LastEnd # 0 /\ NentAt(LastEnd, c) # -1) => NentAt(LastEnd, c) = Cardinality(NewTakes(c))
                      /\ (LastEnd # 0 /\ GenAt(LastEnd, c) # -1) => GenChanges(c) <= Cardinality(NewTakes(c))
@@ -99,7 +108,7 @@ ObsChecks ==
                   <<"component", c, "messages the API receiver got", M, "consumed", ConsSeq(c, N + 1)>>)
     \* ---- ExistingSubsUndisturbed: across every cancel + recreate each older stream of that
     \*      component still gets everything consumed since its own installation, once, in order
-    /\ \A i \in Takes : (F[i].c \in Comps /\ ~IsDup(i)) =>
+    /\ \A i \in Takes : (F[i].c \in Comps /\ ~IsDup(i) /\ ~Lost(i)) =>
          \A k \in Keys : (k.c = F[i].c /\ TakeIdx(k) # 0 /\ TakeIdx(k) < i) =>
             LET C == ConsSeq(k.c, N + 1)  D == DlvSeq(k, N + 1)
                 want == SubSeq(C, InstPos(k), Len(C))
@@ -158,22 +167,28 @@ ConsumeMsg ==
     /\ Line.c \in Comps /\ ApiMsg(Line.c) /\ nmsg'[Line.c] = Line.id /\ KeepH
     /\ l' = l + 1 /\ oi' = 0 /\ UNCHANGED <<tid, ep0>> /\ Progress
 
+ConsumeFail ==
+    /\ l <= NL /\ Line.ev = "fail"
+    /\ ApiListFails /\ KeepH
+    /\ l' = l + 1 /\ oi' = 0 /\ UNCHANGED <<tid, ep0>> /\ Progress
+
 ConsumeReq ==
     /\ l <= NL /\ Line.ev = "req"
     /\ Request([c |-> Line.c, ns |-> Line.ns, m |-> Line.m, st |-> Line.st]) /\ KeepH
     /\ l' = l + 1 /\ oi' = 0 /\ UNCHANGED <<tid, ep0>> /\ Progress
 
-\* not observable: the actor finishes a request it had to look up in the API; a restarted handler
-\* whose API receiver already exists starts
+\* not observable: the actor finishes a request it had to look up in the API; the crashed actor's _run
+\* is called again; a restarted handler whose API receiver already exists starts
 IterSilent ==
     /\ l <= NL /\ Line.ev = "iter"
-    /\ (ActorAdd \/ \E c \in Comps : hasrecv[c] /\ HandlerStart(c)) /\ KeepH
+    /\ (ActorAdd \/ ActorRestart \/ \E c \in Comps : hasrecv[c] /\ HandlerStart(c)) /\ KeepH
     /\ UNCHANGED <<tid, l, oi, ep0>>
 
 IterObserved ==
     /\ l <= NL /\ Line.ev = "iter" /\ oi < Len(Line.obs)
     /\ LET o == Line.obs[oi + 1] IN
          \/ o.k = "take" /\ reqq # <<>> /\ Head(reqq) = [c |-> o.c, ns |-> o.ns, m |-> o.m, st |-> o.st] /\ (ActorRecv \/ ActorTake)
+         \/ o.k = "listfail" /\ ActorCrash
          \/ o.k = "newrecv" /\ o.c \in Comps /\ ~hasrecv[o.c] /\ HandlerStart(o.c)
          \/ o.k = "cons" /\ o.c \in Comps /\ HandlerRecv(o.c) /\ Head(apiq[o.c]) = o.id
          \/ /\ o.k = "dlv" /\ o.c \in Comps /\ o.ns \in Namespaces /\ o.m \in Metrics /\ o.st \in Starts
@@ -199,7 +214,7 @@ ConsumeFinal ==
     /\ l' = l + 1 /\ oi' = 0 /\ UNCHANGED <<vars, tid, ep0>> /\ Progress
     /\ (l' > NL) => Say([tid |-> Tr.id, done |-> TRUE])
 
-TNext == ConsumeMsg \/ ConsumeReq \/ IterSilent \/ IterObserved \/ IterEnd \/ ConsumeFinal
+TNext == ConsumeMsg \/ ConsumeFail \/ ConsumeReq \/ IterSilent \/ IterObserved \/ IterEnd \/ ConsumeFinal
 
 \* the specification's own invariants are evaluated in every state of every matching behaviour
 TraceInv == TypeOK /\ ExactlyOnceInOrder /\ NoApiMessageLost /\ QuiescentAllDelivered
